@@ -34,15 +34,24 @@ DETCOVS = {
 
 
 def explore(ctx, d, gates, depth, dynemodes, detnames):
-    extra = "DMDef == { %s }\n" % ", ".join("<<" + ", ".join(map(str, m)) + ">>" for m in dynemodes)
-    extra += "DCDef == << %s >>\n" % ", ".join('[name |-> "%s", m |-> %s]' % (n, L.tla_qmat(DETCOVS[n][0])) for n in detnames)
-    mod = GR.spec_module("MCPG", d, gates, extra).replace("EXTENDS PqGaussian", "EXTENDS PqDyne")
-    res = run_tlc("MCPG", "MCPG.cfg", generated={"MCPG.tla": mod, "MCPG.cfg": CFG % (d, depth)}, timeout=3000)
-    # 32-bit integers: the Gauss-Jordan inverse of deep states can overflow (a TLC error, never silent): explore one gate less and record it
-    while "Overflow when computing" in res.out and depth > 1:
-        depth -= 1
-        ctx.notes.setdefault("dyne_overflow_reductions", []).append({"d": d, "depth_reduced_to": depth})
-        res = run_tlc("MCPG", "MCPG.cfg", generated={"MCPG.tla": mod, "MCPG.cfg": CFG % (d, depth)}, timeout=3000)
+    def attempt(depth_, dets_):
+        extra = "DMDef == { %s }\n" % ", ".join("<<" + ", ".join(map(str, m)) + ">>" for m in dynemodes)
+        extra += "DCDef == << %s >>\n" % ", ".join('[name |-> "%s", m |-> %s]' % (n, L.tla_qmat(DETCOVS[n][0])) for n in dets_)
+        mod = GR.spec_module("MCPG", d, gates, extra).replace("EXTENDS PqGaussian", "EXTENDS PqDyne")
+        return run_tlc("MCPG", "MCPG.cfg", generated={"MCPG.tla": mod, "MCPG.cfg": CFG % (d, depth_)}, timeout=3000)
+    # 32-bit integers: the Gauss-Jordan inverse of deep states / non-diagonal detectors can overflow (a TLC error, never silent):
+    # explore one gate less, then without the non-diagonal detector, and record the reduction
+    plans = [(depth, list(detnames))] + [(dd, list(detnames)) for dd in range(depth - 1, 0, -1)] + [(1, list(detnames)[:2])]
+    res = None
+    for k, (dd, dets) in enumerate(plans):
+        res = attempt(dd, dets)
+        if "Overflow when computing" not in res.out:
+            if k > 0:
+                ctx.notes.setdefault("dyne_overflow_reductions", []).append({"d": d, "depth": dd, "detectors": dets})
+            break
+    if "Overflow when computing" in res.out:
+        ctx.notes.setdefault("dyne_overflow_reductions", []).append({"d": d, "unresolved": True})
+        return []
     if res.violated:
         ctx.report("spec:PqDyne:" + ",".join(map(str, res.violated)), "PqDyne violates its own theorem (oracle broken)", res.out[-2000:])
         return []
